@@ -551,6 +551,12 @@ fn c06l_specs(_thorough: bool) -> Vec<(String, ListenSpec)> {
             c3.push(healthy("C", 0));
             v.push((format!("{}-bad{}", n, if first_bad { "first" } else { "second" }), lspec("C06", Mode::Independent, 1, 3, 0, false, c3)));
         }
+        // the faulty peer stays connected and the pool has a single worker: the faulty connection must have been
+        // closed (its worker released) for the healthy one to be served at all
+        v.push((format!("{}-holds-the-only-worker", n), lspec("C06", Mode::Independent, 1, 1, 0, false, vec![a.clone(), healthy("B", 0)])));
+        let mut a2 = a.clone();
+        a2.name = format!("{}-2", n);
+        v.push((format!("{}-twice-hold-both-workers", n), lspec("C06", Mode::Independent, 1, 2, 0, false, vec![a.clone(), a2, healthy("B", 1)])));
     }
     v
 }
